@@ -184,3 +184,18 @@ Fixpoint excl_nest_bad (dims : list nat) (cnt : nat) (top : bool) : list nat * n
                  let '(u2, c2) := iter k' c1' in (u1 ++ u2, c2)
        end) d cnt
   end.
+
+(* the scheme with an explicit "increment at the end of this loop's body" flag per nesting level (the code sets it
+   for the inner-most inner loop only); used to show what a second increment in a middle loop does *)
+Fixpoint excl_nest_inc (dims : list (nat * bool)) (cnt : nat) : list nat * nat :=
+  match dims with
+  | [] => ([cnt], cnt)
+  | (d, inc) :: r =>
+    (fix iter (k : nat) (cnt : nat) : list nat * nat :=
+       match k with
+       | O => ([], cnt)
+       | S k' => let '(u1, c1) := excl_nest_inc r cnt in
+                 let c1' := if inc then S c1 else c1 in
+                 let '(u2, c2) := iter k' c1' in (u1 ++ u2, c2)
+       end) d cnt
+  end.
